@@ -19,13 +19,24 @@ use std::cell::UnsafeCell;
 use std::sync::atomic::{AtomicUsize, Ordering};
 use std::sync::{Arc, Mutex};
 
+/// the payload: pointer sized, so that the slot-access hooks log it as the value id. Its drops are counted in a
+/// process-wide table (scenarios of one process run one after the other; `reset_drops` starts a scenario).
+#[repr(transparent)]
 pub(crate) struct Item {
     pub id: usize,
-    pub drops: Arc<Vec<AtomicUsize>>,
+}
+pub(crate) const MAX_ID: usize = 1 << 12;
+#[allow(clippy::declare_interior_mutable_const)]
+const ZERO: AtomicUsize = AtomicUsize::new(0);
+pub(crate) static DROPS: [AtomicUsize; MAX_ID] = [ZERO; MAX_ID];
+pub(crate) fn reset_drops() {
+    for d in DROPS.iter() {
+        d.store(0, Ordering::SeqCst);
+    }
 }
 impl Drop for Item {
     fn drop(&mut self) {
-        self.drops[self.id].fetch_add(1, Ordering::SeqCst);
+        DROPS[self.id % MAX_ID].fetch_add(1, Ordering::SeqCst);
     }
 }
 
@@ -194,8 +205,7 @@ pub fn build(rng: &mut Rng, tier: u32) -> Built {
     };
     let drain_bulk = rng.chance(700);
     let max_ops = if tier > 0 { 6 } else { 4 };
-    let total = 1 << 12;
-    let drops: Arc<Vec<AtomicUsize>> = Arc::new((0..total).map(|_| AtomicUsize::new(0)).collect());
+    reset_drops();
     let cell: Arc<Cell<Queue<Item>>> = Arc::new(Cell(UnsafeCell::new(None)));
     let hist: Arc<Mutex<Vec<HOp>>> = Arc::new(Mutex::new(vec![]));
     let clock = Arc::new(AtomicUsize::new(0));
@@ -241,9 +251,8 @@ pub fn build(rng: &mut Rng, tier: u32) -> Built {
     let dones: Vec<usize> = (0..np).map(|i| 0x2000 + i * 16).collect();
 
     {
-        let (cell, drops, hist, clock, init_q, pushed, popped, msgs) = (
+        let (cell, hist, clock, init_q, pushed, popped, msgs) = (
             cell.clone(),
-            drops.clone(),
             hist.clone(),
             clock.clone(),
             init_q.clone(),
@@ -269,7 +278,7 @@ pub fn build(rng: &mut Rng, tier: u32) -> Built {
             for _ in 0..fill {
                 let id = mine(&pushed);
                 call("mq.push", id as u64, 0);
-                q.push(Item { id, drops: drops.clone() });
+                q.push(Item { id });
                 ret("mq.push", 0);
                 content.push(id);
             }
@@ -330,7 +339,7 @@ pub fn build(rng: &mut Rng, tier: u32) -> Built {
                     COp::Push => {
                         let id = mine(&pushed);
                         call("mq.push", id as u64, 0);
-                        q.push(Item { id, drops: drops.clone() });
+                        q.push(Item { id });
                         ret("mq.push", 0);
                         HKind::Push(id)
                     }
@@ -388,7 +397,7 @@ pub fn build(rng: &mut Rng, tier: u32) -> Built {
     }
     for p in 0..np {
         names.push(format!("t{}", p + 1));
-        let (cell, drops, hist, clock, pushed) = (cell.clone(), drops.clone(), hist.clone(), clock.clone(), pushed.clone());
+        let (cell, hist, clock, pushed) = (cell.clone(), hist.clone(), clock.clone(), pushed.clone());
         let (gate, done, cnt) = (gates[p], dones[p], pcounts[p]);
         actors.push(Box::new(move || {
             park_gate(gate);
@@ -398,7 +407,7 @@ pub fn build(rng: &mut Rng, tier: u32) -> Built {
                 pushed.lock().unwrap().push(id);
                 let t_call = clock.fetch_add(1, Ordering::SeqCst);
                 call("mq.push", id as u64, 0);
-                q.push(Item { id, drops: drops.clone() });
+                q.push(Item { id });
                 ret("mq.push", 0);
                 let t_ret = clock.fetch_add(1, Ordering::SeqCst);
                 hist.lock().unwrap().push(HOp { actor: p + 1, kind: HKind::Push(id), call: t_call, ret: t_ret });
@@ -451,12 +460,12 @@ pub fn build(rng: &mut Rng, tier: u32) -> Built {
             if complete {
                 // popped ⊎ dropped-with-the-queue = pushed, every payload dropped exactly once
                 for x in &pushed {
-                    let d = drops[*x].load(Ordering::SeqCst);
+                    let d = DROPS[*x].load(Ordering::SeqCst);
                     if d != 1 {
                         v.push(format!("payload {x} dropped {d} times (lost or duplicated)"));
                     }
                 }
-                for (i, d) in drops.iter().enumerate() {
+                for (i, d) in DROPS.iter().enumerate() {
                     if d.load(Ordering::SeqCst) != 0 && !pushed.contains(&i) {
                         v.push(format!("payload {i} dropped but never pushed"));
                     }
